@@ -70,6 +70,25 @@ MiddleOK(M, payload) ==
   /\ \A i \in 1..Len(M) : M[i].k = "l" =>
         (Generatable(M[i].t) \/ \E j \in 1..Len(payload) : payload[j].k = "l" /\ LeafKey(payload[j]) = LeafKey(M[i]))
 
+(* The exact form with padding at the far ends: the schema may require an empty filler leaf before everything the      *)
+(* operation keeps or after it (figure: caption figureimage - the filler image follows the text that was after the      *)
+(* range).  Up to j leading and k trailing leaves of the result that are generatable non-text leaves are set aside and  *)
+(* the rest must split exactly as A \o M \o B.                                                                           *)
+FillerLeaf(x) == x.k = "l" /\ Generatable(x.t)
+RECURSIVE LeadFill(_)
+LeadFill(L) == IF L # <<>> /\ FillerLeaf(Head(L)) THEN 1 + LeadFill(Tail(L)) ELSE 0
+ExactPadded(d, f, t, out, payload, deletion) ==
+  LET A == LeafSeq(SubSeq(d, 1, f))
+      B == LeafSeq(SubSeq(d, t + 1, Len(d)))
+      L == LeafSeq(out) IN
+  \E j \in 0..LeadFill(L), k \in 0..LeadFill(Rev(L)) :
+     /\ j + k + Len(A) + Len(B) <= Len(L)
+     /\ LET L2 == SubSeq(L, j + 1, Len(L) - k)
+            M == SubSeq(L2, Len(A) + 1, Len(L2) - Len(B)) IN
+        /\ SubSeq(L2, 1, Len(A)) = A /\ Suffix(L2, Len(B)) = B
+        /\ MiddleOK(M, payload)
+        /\ (deletion => TextOf(M) = <<>>)
+
 (* ---------------- isolating boundaries (C18) ---------------- *)
 (* open-token indices of isolating ancestors containing both positions *)
 IsoAncestors(d, f, t) ==
